@@ -13,7 +13,13 @@ import time
 
 ROOT = "/verif"
 PY = ROOT + "/.venv/bin/python"
-WORK = ROOT + "/.work"
+# development aid for evaluating seeded changes without touching /repo: VF_REPO=<worktree> makes that checkout shadow
+# /repo on sys.path, VF_TAG=<tag> keeps work files, replays and evidence of such a run apart from the real ones
+VF_REPO = os.environ.get("VF_REPO", "")
+VF_TAG = os.environ.get("VF_TAG", "")
+WORK = ROOT + "/.work" + ("/" + VF_TAG if VF_TAG else "")
+OUT = WORK if VF_TAG else ROOT
+PYPATH = (VF_REPO + ":" if VF_REPO else "") + ROOT
 PLUGIN = ROOT + "/vf/plugin_stats.py"
 EXIT_HARNESS_ERROR = 3
 
@@ -55,7 +61,7 @@ def run_crosshair(path, func, line, timeout):
     cmd = [PY, "-m", "crosshair", "check", "%s:%d" % (path, line), "--report_all",
            "--analysis_kind=PEP316", "--per_condition_timeout", str(timeout), "--extra_plugin", PLUGIN]
     env = dict(os.environ)
-    env["PYTHONPATH"] = ROOT + ":" + env.get("PYTHONPATH", "")
+    env["PYTHONPATH"] = PYPATH
     env["PYTHONHASHSEED"] = "0"
     env["VF_UNDER_CROSSHAIR"] = "1"
     t0 = time.time()
@@ -104,7 +110,7 @@ def replay_call(path, call, timeout=300):
     """Execute the concrete call in a fresh, untraced interpreter."""
     cmd = [PY, ROOT + "/vf/replay.py", path, call]
     env = dict(os.environ)
-    env["PYTHONPATH"] = ROOT + ":" + env.get("PYTHONPATH", "")
+    env["PYTHONPATH"] = PYPATH
     env.pop("VF_UNDER_CROSSHAIR", None)
     try:
         p = subprocess.run(cmd, capture_output=True, text=True, timeout=timeout, env=env,
@@ -134,8 +140,8 @@ def run_property(prop, harnesses, tier, seed, timeout, bounds, assumptions, func
     wd = os.path.join(WORK, prop)
     shutil.rmtree(wd, ignore_errors=True)
     os.makedirs(wd, exist_ok=True)
-    os.makedirs(ROOT + "/replays", exist_ok=True)
-    os.makedirs(ROOT + "/evidence", exist_ok=True)
+    os.makedirs(OUT + "/replays", exist_ok=True)
+    os.makedirs(OUT + "/evidence", exist_ok=True)
     tasks = []
     only = os.environ.get("VF_ONLY")
     if only:
@@ -259,10 +265,10 @@ def run_property(prop, harnesses, tier, seed, timeout, bounds, assumptions, func
                    "call": r.get("call"), "replay": r.get("replay"), "module": r.get("path"),
                    "message": r.get("msg", "")[:800], "detail": r.get("detail")}
         hsh = hashlib.sha1(json.dumps(payload, sort_keys=True, default=str).encode()).hexdigest()[:10]
-        rp = "%s/replays/%s-%s.json" % (ROOT, prop, hsh)
+        rp = "%s/replays/%s-%s.json" % (OUT, prop, hsh)
         # keep the harness module next to the replay so it can be re-executed later
         if r.get("path") and os.path.exists(r["path"]):
-            keep = "%s/replays/%s-%s.py" % (ROOT, prop, hsh)
+            keep = "%s/replays/%s-%s.py" % (OUT, prop, hsh)
             shutil.copy(r["path"], keep)
             payload["module_copy"] = keep
         with open(rp, "w") as f:
@@ -317,7 +323,7 @@ def run_property(prop, harnesses, tier, seed, timeout, bounds, assumptions, func
         "property_id": prop, "tier": tier, "seed": seed, "level": "model_checking", "coverage": cov,
         "assumptions": assumptions, "wall_s": round(wall, 2), "violations": len(violations),
     }
-    with open("%s/evidence/%s.json" % (ROOT, prop), "w") as f:
+    with open("%s/evidence/%s.json" % (OUT, prop), "w") as f:
         json.dump(ev, f, indent=1, default=str)
     print("SUMMARY property=%s tier=%s obligations=%d discharged=%d inconclusive=%d known=%d violations=%d "
           "harness_errors=%d paths=%d smt=%d smt_time=%.1fs wall=%.0fs" % (
